@@ -169,3 +169,45 @@ Theorem C10_kwargs_never_unresolvable : forall e c d n v,
   In (c, d) (kwargs_of e) -> In (n, v) d -> v <> VUnres /\ v <> VJ JNull.
 Proof. exact kwargs_never_unresolvable. Qed.
 Print Assumptions C10_kwargs_never_unresolvable.
+
+(* ---- the value domain of the source request (after the seeded regression C10_c: value or UNRESOLVABLE) ---- *)
+
+(* $request.query|path|header.name: a parameter the source request carries with a non-null value v evaluates to exactly v,
+   for EVERY v: 0, 0.0, the empty string, false, [], {} as much as a truthy one; and that is never UNRESOLVABLE *)
+Theorem C10_request_value_denotes : forall rx_ok rx_extract cx l name v,
+  name_ok name = true -> source_param cx l name = Some v -> v <> PJ JNull ->
+  eval_str rx_ok rx_extract cx (print (RReq l name None)) = OVal (value_of_pval v) /\ value_of_pval v <> VUnres.
+Proof. exact request_value_denotes. Qed.
+Print Assumptions C10_request_value_denotes.
+
+(* ... and it is UNRESOLVABLE exactly when the request has no such parameter, or it is null: absent is not falsy *)
+Theorem C10_request_value_unresolvable_iff : forall rx_ok rx_extract cx l name,
+  name_ok name = true ->
+  (eval_str rx_ok rx_extract cx (print (RReq l name None)) = OVal VUnres
+   <-> (source_param cx l name = None \/ source_param cx l name = Some (PJ JNull))).
+Proof. exact request_value_unresolvable_iff. Qed.
+Print Assumptions C10_request_value_unresolvable_iff.
+
+Theorem C10_absent_request_value_unresolvable : forall rx_ok rx_extract cx l name rx,
+  name_ok name = true -> rx_region rx_ok rx = true ->
+  (source_param cx l name = None \/ source_param cx l name = Some (PJ JNull)) ->
+  eval_str rx_ok rx_extract cx (print (RReq l name rx)) = OVal VUnres.
+Proof. exact absent_request_value_unresolvable. Qed.
+Print Assumptions C10_absent_request_value_unresolvable.
+
+(* a template is UNRESOLVABLE only through an UNRESOLVABLE part: falsy parts (0, empty string, False, None) do not poison it *)
+Theorem C10_template_resolvable : forall vs, existsb is_unres vs = false -> combine vs <> VUnres.
+Proof. exact combine_resolvable. Qed.
+Print Assumptions C10_template_resolvable.
+
+(* end to end: the (last) link parameter c.n: $request.<loc>.<name> puts exactly the source request's value, falsy or not, into
+   container c of the derived case, whatever the generator offers for other names (exclude contract) *)
+Theorem C10_link_carries_source_value : forall rx_ok rx_extract cx loc name c n v gen ps mb mm,
+  name_ok name = true -> source_param cx loc name = Some v -> v <> PJ JNull ->
+  (forall excl g, In n excl -> gen excl = Some g -> assoc_get n g = None) ->
+  exists f,
+    final_container (kwargs_of (extract_parameters rx_ok rx_extract cx
+                       {| l_params := ps ++ [plain_param c n loc name]; l_body := mb; l_merge := mm |})) c gen = Some f
+    /\ assoc_get n f = Some (value_of_pval v) /\ value_of_pval v <> VUnres.
+Proof. exact link_carries_source_value. Qed.
+Print Assumptions C10_link_carries_source_value.
